@@ -1,13 +1,40 @@
 from xdsl.context import Context
-from xdsl.dialects import builtin, scf
+from xdsl.dialects import builtin, memref, scf
 from xdsl.dialects.memref import DeallocOp
-from xdsl.ir import Operation
+from xdsl.ir import Operation, OpResult, SSAValue, Use
 from xdsl.passes import ModulePass
 from xdsl.rewriter import InsertPoint, Rewriter
 
 from snaxc.accelerators.acc_context import AccContext
 from snaxc.dialects import snax
 from snaxc.util.dispatching_rules import dispatch_to_compute, dispatch_to_dm
+
+
+# operations whose result is another view of the memory of their first operand
+VIEW_LIKE_OPS = (
+    builtin.UnrealizedConversionCastOp,
+    memref.SubviewOp,
+    memref.CastOp,
+    memref.MemorySpaceCastOp,
+    memref.ReinterpretCastOp,
+    snax.LayoutCast,
+)
+
+
+def uses_through_views(value: SSAValue) -> list[Use]:
+    """
+    The uses of the value and of every other view of the same buffer: two operations on different cores
+    depend on each other when they touch the same memory, under whichever SSA name they see it.
+    """
+    while isinstance(value, OpResult) and isinstance(value.op, VIEW_LIKE_OPS):
+        value = value.op.operands[0]
+    views = [value]
+    for view in views:
+        views.extend(
+            res for use in view.uses if isinstance(use.operation, VIEW_LIKE_OPS) and use.index == 0
+            for res in use.operation.results
+        )
+    return [use for view in views for use in view.uses]
 
 
 def is_reached_through(barrier: Operation, op: Operation) -> bool:
@@ -70,7 +97,7 @@ class InsertSyncBarrier(ModulePass):
             # check all operands of current op
             for operand in [*op_in_module.operands, *op_in_module.results]:
                 # check all ops that use the operand -> dependency with current op
-                for op_use in operand.uses:
+                for op_use in uses_through_views(operand):
                     # now check if op is dispatched to a specific core and the result
                     # is used on another core - if yes, there must be a synchronisation
                     # barrier between the two ops
